@@ -14,6 +14,7 @@
 package norm
 
 import (
+	"sort"
 	"bytes"
 	"fmt"
 	"go/ast"
@@ -1296,7 +1297,18 @@ func (n *normalizer) callerDeclares(name string) bool {
 // expand builds the statements that replace st.
 func (n *normalizer) expand(c *callee, st ast.Stmt, kind string) ([]ast.Stmt, bool) {
 	ren := map[types.Object]string{}
+	// (in source order, so that the fresh names - and with them the text of the normal form - are the same on every run)
+	var objs []types.Object
 	for o := range c.objs {
+		objs = append(objs, o)
+	}
+	sort.Slice(objs, func(i, j int) bool {
+		if objs[i].Pos() != objs[j].Pos() {
+			return objs[i].Pos() < objs[j].Pos()
+		}
+		return objs[i].Name() < objs[j].Name()
+	})
+	for _, o := range objs {
 		if c.fromLit {
 			// only the literal's own parameters and results need new names; its locals live in their own block
 			continue
